@@ -9,19 +9,24 @@ metas, clock reading and retention:
   2. the delete protocol, cut after ANY number of micro-steps, touches nothing that belongs to a
      surviving segment, in any of the five stores;
   3. a pass interrupted after ANY prefix of its step list and then repeated ends in exactly the state of
-     the uninterrupted pass in blob store, local files, in-memory metadata and segmeta.json — because
-     segmeta.json, from which the repeated pass re-reads its victims, is rewritten last; with
-     segmeta.json rewritten FIRST there is a crash point after which files are orphaned forever (this
-     is why the order is tied to the source by a call-order fact).  For the empty-PQ meta files the
-     equality holds when the cut lies before any local file was removed, and fails in general
-     (counterexample): the pqids are read from the victim's .sfm file, which is gone once the files
-     phase has passed — the repeated pass then leaves the victim's entries behind;
+     the uninterrupted pass in ALL five stores — because segmeta.json, from which the repeated pass
+     re-reads its victims, is rewritten last, and (after the repair c14-6) the empty-PQ meta files are
+     cleaned FIRST, while the victims' .sfm files — the only place their pqids are recorded — still
+     exist: whenever a victim's files are gone, its empty-PQ entries are gone already.  With
+     segmeta.json rewritten FIRST there is a crash point after which files are orphaned forever; with
+     the empty-PQ phase behind the files phase (the order before the repair, `deleteOrderOld`) a crash
+     between the two leaves the victim's entries for ever (counterexample theorem).  This is why the
+     order is tied to the source by call-order facts;
   4. after a pass nothing of a victim is left in blob store, local files, in-memory metadata and
      segmeta.json, and (after the repair of DeleteSegmentData, which now reads the victims' pqids from
      their .sfm files) the empty-PQ meta files list only segments that are still in segmeta.json, for
      every store in which each empty-PQ entry is recorded in its segment's .sfm file (what the writer
      does at rotation).  The behaviour before the repair (`passOld`: step 4 was dead code) is kept with
-     its counterexample theorem;
+     its counterexample theorem; an empty result recorded AFTER a pass (a rotation records one for every
+     persistent query without a match) is listed, whatever the pass removed — the pqmeta files afterwards
+     hold exactly the survivors' entries and the records made since (after the repair c14-5: the writer
+     re-creates the pqmeta directory, which goes with its last file; before, every record after a pass that
+     removed the last entry was dropped: `recordAllOld`, counterexample theorem);
   5. the volume pass deletes oldest-first and stops at the first segment that does not fit: the marked
      segments are a prefix of the age-sorted candidates, nothing strictly older than a deleted segment
      stays, and it never deletes as much as the excess — at full strength, for all inputs (only
@@ -132,67 +137,34 @@ theorem survivors_intact_pass (nowMs : Nat) (hours : Int) (s : Store) (cut : Nat
 
 /-! ### 3. interrupted and repeated -/
 
-/-- C14.3 — for EVERY store, clock, retention and EVERY cut point of the step list: the interrupted pass
-followed by a full pass ends in the state of the uninterrupted pass in the blob store, the local files,
-the in-memory metadata and segmeta.json (`withoutPq` = the store minus its empty-PQ meta files). -/
+/-- C14.3 — at full strength: for EVERY store, clock, retention and EVERY cut point of the step list, the
+interrupted pass followed by a full pass ends in exactly the state of the uninterrupted pass — blob store,
+local files, in-memory metadata, empty-PQ meta files and segmeta.json.  (After the repair c14-6; false for
+the order before it: `interrupt_repeat_pq_old_counterexample`.) -/
 theorem interrupt_repeat_converges (nowMs : Nat) (hours : Int) (s : Store) (cut : Nat) :
+    pass deleteOrder nowMs hours (passCut deleteOrder nowMs hours s cut) = pass deleteOrder nowMs hours s :=
+  interrupt_repeat_full nowMs hours s cut
+
+/-- … so whatever a pass leaves behind when it is cut, the next pass removes: nothing of a victim survives
+an interrupted and repeated pass, in any store the uninterrupted pass would have cleaned (corollary). -/
+theorem interrupt_repeat_converges_without_pq (nowMs : Nat) (hours : Int) (s : Store) (cut : Nat) :
     withoutPq (pass deleteOrder nowMs hours (passCut deleteOrder nowMs hours s cut))
       = withoutPq (pass deleteOrder nowMs hours s) :=
-  interrupt_repeat nowMs hours s cut
+  congrArg withoutPq (interrupt_repeat_converges nowMs hours s cut)
 
-/-- … and in ALL five stores when the cut lies inside the blob phase (no local file has been removed
-yet, so the repeated pass reads the same pqids from the .sfm files). -/
-theorem interrupt_repeat_converges_blob_phase (nowMs : Nat) (hours : Int) (s : Store) (cut : Nat)
-    (hc : cut ≤ (victims nowMs hours 0 (readLocal s)).length) :
-    pass deleteOrder nowMs hours (passCut deleteOrder nowMs hours s cut) = pass deleteOrder nowMs hours s := by
-  generalize hvs : victims nowMs hours 0 (readLocal s) = vs at hc
-  by_cases he : vs.isEmpty = true
-  · unfold passCut deleteSegmentData; simp only [hvs, he, if_true]
-  · -- the steps that ran are blob steps: files, .sfm contents and segmeta.json are as before
-    have hL := stepsFor_deleteOrder (withSfmPqids s vs)
-    have hblob : ∀ t ∈ (stepsFor deleteOrder (withSfmPqids s vs)).take cut, ∃ k, t = Step.blob k := by
-      intro t ht
-      rw [hL] at ht
-      have hlen : cut ≤ ((withSfmPqids s vs).map (fun v => Step.blob v.key)).length := by
-        rw [List.length_map, ← List.length_map (f := (·.key)), withSfmPqids_keys, List.length_map]; exact hc
-      rw [List.append_assoc, List.append_assoc, List.append_assoc, List.take_append_of_le_length hlen] at ht
-      obtain ⟨v, _, rfl⟩ := List.mem_map.mp (List.mem_of_mem_take ht)
-      exact ⟨_, rfl⟩
-    have hsame : ∀ (L : List Step) (s0 : Store), (∀ t ∈ L, ∃ k, t = Step.blob k) →
-        (L.foldl applyStep s0).files = s0.files ∧ (L.foldl applyStep s0).sfmPq = s0.sfmPq ∧
-        (L.foldl applyStep s0).segmetaJson = s0.segmetaJson := by
-      intro L
-      induction L with
-      | nil => intro s0 _; exact ⟨rfl, rfl, rfl⟩
-      | cons t L ih =>
-        intro s0 h
-        obtain ⟨k, rfl⟩ := h _ List.mem_cons_self
-        have := ih (applyStep s0 (Step.blob k)) (fun x hx => h x (List.mem_cons_of_mem _ hx))
-        simpa [applyStep] using this
-    have hs1 : passCut deleteOrder nowMs hours s cut = runSteps s ((stepsFor deleteOrder (withSfmPqids s vs)).take cut) := by
-      unfold passCut deleteSegmentData; simp only [hvs, he, if_false, Bool.false_eq_true]
-    obtain ⟨hf, hq, hm⟩ := hsame _ s hblob
-    have hrl : readLocal (passCut deleteOrder nowMs hours s cut) = readLocal s := by
-      rw [hs1]; unfold readLocal runSteps; rw [hm]
-    have hw : withSfmPqids (passCut deleteOrder nowMs hours s cut) vs = withSfmPqids s vs := by
-      rw [hs1]; exact withSfmPqids_congr s _ hf hq vs
-    unfold pass
-    simp only [hrl, hvs]
-    unfold deleteSegmentData
-    simp only [he, if_false, Bool.false_eq_true, hw]
-    rw [hs1]
-    have hlen := stepsFor_withSfm_length deleteOrder s vs
-    rw [← hlen, List.take_length]
-    unfold runSteps
-    exact absorb_before _ _ s (fun t ht => List.mem_of_mem_take ht)
-
-/-- C14.3 (empty-PQ meta files) — the equality in all five stores does NOT hold for every cut: one
-expired segment with an empty-PQ entry, crash after its blob objects and local files are gone (cut 2):
-the repeated pass cannot read the .sfm file any more and leaves the entry, the uninterrupted pass
-removes it.  (Harm: a stale line in a pqmeta file; the same state as after every pass before the
-repair.) -/
-theorem interrupt_repeat_pq_counterexample :
-    ¬ ∀ nowMs hours s cut, pass deleteOrder nowMs hours (passCut deleteOrder nowMs hours s cut) = pass deleteOrder nowMs hours s := by
+/-- C14.3 (record of the repaired defect) — with the phase order before the repair (empty-PQ meta files
+AFTER the local files) the equality did not hold for every cut: one expired segment with an empty-PQ entry,
+crash after its blob objects and local files are gone (cut 2): the repeated pass cannot read the .sfm file
+any more and leaves the entry for ever, the uninterrupted pass removes it.  With the repaired order the same
+store and every cut up to the end converge. -/
+theorem interrupt_repeat_pq_old_counterexample :
+    (¬ ∀ nowMs hours s cut, pass deleteOrderOld nowMs hours (passCut deleteOrderOld nowMs hours s cut)
+        = pass deleteOrderOld nowMs hours s) ∧
+    (∀ cut ∈ [0, 1, 2, 3, 4, 5, 6],
+      (pass deleteOrder 1790000000000 24 (passCut deleteOrder 1790000000000 24
+        { blob := [1], files := [1], memMeta := [1], segmetaJson := [{ key := 1, latest := 1000, kind := .log }],
+          pqMeta := [(7, 1)], sfmPq := [(7, 1)] } cut)).pqMeta = []) := by
+  refine ⟨?_, by decide⟩
   intro h
   have := h 1790000000000 24
     { blob := [1], files := [1], memMeta := [1], segmetaJson := [{ key := 1, latest := 1000, kind := .log }],
@@ -245,15 +217,15 @@ theorem pass_removes_victims (nowMs : Nat) (hours : Int) (s : Store) (v : Meta)
     intro t ht; rw [hs']; exact absorb_after _ s t ht
   refine ⟨?_, ?_, ?_, ?_⟩
   · intro hk
-    have h := mem_of (Step.blob v.key) (by rw [hL]; simp only [List.mem_append, List.mem_map, List.mem_singleton]; exact Or.inl (Or.inl (Or.inl (Or.inl ⟨w, hw, by rw [hwk]⟩))))
+    have h := mem_of (Step.blob v.key) (by rw [hL]; simp only [List.mem_append, List.mem_map, List.mem_singleton]; exact Or.inl (Or.inl (Or.inl (Or.inr ⟨w, hw, by rw [hwk]⟩))))
     have : v.key ∈ (applyStep s' (Step.blob v.key)).blob := by rw [h]; exact hk
     simp [applyStep] at this
   · intro hk
-    have h := mem_of (Step.files v.key) (by rw [hL]; simp only [List.mem_append, List.mem_map, List.mem_singleton]; exact Or.inl (Or.inl (Or.inl (Or.inr ⟨w, hw, by rw [hwk]⟩))))
+    have h := mem_of (Step.files v.key) (by rw [hL]; simp only [List.mem_append, List.mem_map, List.mem_singleton]; exact Or.inl (Or.inl (Or.inr ⟨w, hw, by rw [hwk]⟩)))
     have : v.key ∈ (applyStep s' (Step.files v.key)).files := by rw [h]; exact hk
     simp [applyStep] at this
   · intro hk
-    have h := mem_of (Step.mem v.key) (by rw [hL]; simp only [List.mem_append, List.mem_map, List.mem_singleton]; exact Or.inl (Or.inl (Or.inr ⟨w, hw, by rw [hwk]⟩)))
+    have h := mem_of (Step.mem v.key) (by rw [hL]; simp only [List.mem_append, List.mem_map, List.mem_singleton]; exact Or.inl (Or.inr ⟨w, hw, by rw [hwk]⟩))
     have : v.key ∈ (applyStep s' (Step.mem v.key)).memMeta := by rw [h]; exact hk
     simp [applyStep] at this
   · intro m hm hk
@@ -318,7 +290,7 @@ theorem pqmeta_clean (nowMs : Nat) (hours : Int) (s : Store)
         stepsFor deleteOrder (withSfmPqids s (victims nowMs hours 0 (readLocal s))) := by
       rw [stepsFor_deleteOrder]
       simp only [List.mem_append, List.mem_map, List.mem_singleton]
-      refine Or.inl (Or.inr ⟨{ v with pqids := sfmPqids s v.key }, ?_, rfl⟩)
+      refine Or.inl (Or.inl (Or.inl (Or.inl ⟨{ v with pqids := sfmPqids s v.key }, ?_, rfl⟩)))
       unfold withSfmPqids
       exact List.mem_map.mpr ⟨v, hv, by simp [hvp]⟩
     have habs := absorb_after _ s _ hstep
@@ -348,7 +320,7 @@ example : (pass deleteOrder 1790000000000 24 { orphanWitness with pqMeta := [(7,
 
 /-- the same statement for the pass BEFORE the repair … -/
 def PqMetaCleanOld (nowMs : Nat) (hours : Int) (s : Store) : Prop :=
-  ∀ e ∈ (passOld deleteOrder nowMs hours s).pqMeta, e.2 ∈ (passOld deleteOrder nowMs hours s).segmetaJson.map (·.key)
+  ∀ e ∈ (passOld deleteOrderOld nowMs hours s).pqMeta, e.2 ∈ (passOld deleteOrderOld nowMs hours s).segmetaJson.map (·.key)
 
 /-- … was false on stores the writer produces: `ReadLocalSegmeta(false)` yields metas without pqids, so
 step 4 of the old `DeleteSegmentData` had nothing to iterate over and the entry of a deleted segment
@@ -369,6 +341,66 @@ theorem pqmeta_clean_needs_sfm : ¬ ∀ nowMs hours s, PqMetaClean nowMs hours s
   have := h 1790000000000 24 { orphanWitness with pqMeta := [(7, 1)] }
   revert this
   unfold PqMetaClean
+  decide
+
+/-! #### records after the pass -/
+
+/-- C14.4 (records) — for EVERY store, clock, retention and list of records: an empty result recorded after
+the pass is listed in the empty-PQ meta files, whatever the pass removed (also when it removed the last
+entry, and with it the pqmeta directory). -/
+theorem record_after_pass_listed (nowMs : Nat) (hours : Int) (s : Store) (es : List (Nat × Nat)) (e : Nat × Nat)
+    (he : e ∈ es) : e ∈ (recordAll (pass deleteOrder nowMs hours s) es).pqMeta :=
+  (mem_recordAll _ es e).mpr (Or.inr he)
+
+/-- … recording touches nothing but the empty-PQ meta files, and there it only adds -/
+theorem record_only_adds (s : Store) (es : List (Nat × Nat)) :
+    withoutPq (recordAll s es) = withoutPq s ∧ ∀ x, x ∈ (recordAll s es).pqMeta ↔ x ∈ s.pqMeta ∨ x ∈ es :=
+  ⟨withoutPq_recordAll s es, mem_recordAll s es⟩
+
+/-- C14.4 (the empty-PQ meta files list exactly the survivors' entries and the records made since) — for every
+store the writer can have produced: after a pass and any records, an entry is listed iff it was listed before
+for a segment the pass did not select, or it was recorded after the pass. -/
+theorem pqmeta_exact_after_pass_and_records (nowMs : Nat) (hours : Int) (s : Store) (es : List (Nat × Nat))
+    (hsfm : PqEntriesInSfm s) (hpre : ∀ e ∈ s.pqMeta, e.2 ∈ s.segmetaJson.map (·.key)) (p k : Nat) :
+    (p, k) ∈ (recordAll (pass deleteOrder nowMs hours s) es).pqMeta ↔
+      ((p, k) ∈ s.pqMeta ∧ k ∉ (victims nowMs hours 0 (readLocal s)).map (·.key)) ∨ (p, k) ∈ es := by
+  rw [mem_recordAll]
+  have hso := survivors_intact deleteOrder (victims nowMs hours 0 (readLocal s)) s
+    (stepsFor deleteOrder (victims nowMs hours 0 (readLocal s))).length
+  have hpass : pass deleteOrder nowMs hours s = deleteSegmentData deleteOrder (victims nowMs hours 0 (readLocal s)) s
+      (stepsFor deleteOrder (victims nowMs hours 0 (readLocal s))).length := rfl
+  constructor
+  · rintro (h | h)
+    · left
+      have hk : k ∉ (victims nowMs hours 0 (readLocal s)).map (·.key) := by
+        intro hk
+        obtain ⟨v, hv, hvk⟩ := List.mem_map.mp hk
+        have hclean := pqmeta_clean nowMs hours s hsfm hpre (p, k) h
+        obtain ⟨m, hm, hmk⟩ := List.mem_map.mp hclean
+        exact (pass_removes_victims nowMs hours s v hv).2.2.2 m hm (by rw [hmk, hvk])
+      refine ⟨?_, hk⟩
+      rw [hpass] at h
+      exact (hso.pq p k hk).mp h
+    · exact Or.inr h
+  · rintro (⟨h, hk⟩ | h)
+    · left
+      rw [hpass]
+      exact (hso.pq p k hk).mpr h
+    · exact Or.inr h
+
+/-- (record of the repaired defect) before the repair a record made after a pass that removed the LAST
+empty-PQ entry was dropped — `removePqmrFilesAndDirectory` removes the pqmeta directory with its last file and
+`writeEmptyPqsMapToFile` did not create it: segment 1 expired, pqid 7 lists it (the only entry); after the
+pass an empty result of pqid 7 for segment 2 is recorded and not listed.  The repaired writer lists it. -/
+theorem record_after_pass_old_counterexample :
+    (¬ ∀ nowMs hours s es e, e ∈ es →
+        e ∈ (recordAllOld (pqDirRemovedOld s (pass deleteOrder nowMs hours s)) (pass deleteOrder nowMs hours s) es).pqMeta) ∧
+    (recordAll (pass deleteOrder 1790000000000 24 { orphanWitness with pqMeta := [(7, 1)], sfmPq := [(7, 1)] }) [(7, 2)]).pqMeta
+      = [(7, 2)] := by
+  refine ⟨?_, by decide⟩
+  intro h
+  have := h 1790000000000 24 { orphanWitness with pqMeta := [(7, 1)], sfmPq := [(7, 1)] } [(7, 2)] (7, 2) (by simp)
+  revert this
   decide
 
 /-! ### 5. the volume pass -/
